@@ -215,6 +215,29 @@ def judge_cut(name, consumer, cut):
     return bad, len(items)
 
 
+def judge_cli_limit(name, consumer, c):
+    """the command-line tool's own count limiter (pykdebugparser.__main__.print_with_count) on the formatted listings:
+    count c >= 0 prints exactly the first c lines; the default -1 prints all."""
+    import contextlib
+    from pykdebugparser.__main__ import print_with_count
+    blob, recs = dumps()[name]
+    f = PyKdebugParser()
+    gen = f.formatted_kevents(io.BytesIO(blob), tc()) if consumer == 'formatted_kevents' else f.formatted_traces(io.BytesIO(blob), tc())
+    fitems, fhow = full(name, consumer)
+    buf = io.StringIO()
+    try:
+        with contextlib.redirect_stdout(buf):
+            print_with_count(gen, c)
+    except Exception as ex:
+        return [('cli-count-limited-run-failed:' + type(ex).__name__, {'limit': c})]
+    got = buf.getvalue().split('\n')[:-1] if buf.getvalue() else []
+    exp = list(fitems) if c < 0 else list(fitems[:c])
+    exp_lines = [l for x in exp for l in str(x).split('\n')]
+    if got != exp_lines:
+        return [('cli-count-limit-changes-lines', {'limit': c, 'printed': len(got), 'expected': len(exp_lines)})]
+    return []
+
+
 def judge_limit(name, consumer, c):
     blob, recs = dumps()[name]
     fitems, fhow = full(name, consumer)
@@ -235,7 +258,7 @@ class C06(Check):
     rule = ('crash points: every truncation offset 0..len of each base dump (4 version-2, 6 version-3; thorough adds nothing '
             'to the offsets - they are already all enumerated - but runs every consumer on every dump) x consumers '
             '{KdBufParser.parse, kevents, traces, formatted_kevents, formatted_traces} through a CountingReader (budget '
-            '16*len+4096 read calls, 20 s watchdog); plus every count limit c in 0..N+1 via islice on every complete dump. '
+            '16*len+4096 read calls, 20 s watchdog); plus every count limit c in 0..N+1 via islice on every complete dump, and every limit -1..N+1 through the command-line tool\'s own print_with_count. '
             'Oracle: stops before the budget; items reported are a prefix of the complete dump\'s (events only for v3); no '
             'more events than complete records before the cut; reported items do not change afterwards; islice(c) == '
             'first c of the full listing. Distinct by construction; non-trivial = the cut falls strictly inside a record '
@@ -280,6 +303,11 @@ class C06(Check):
         else:
             _, name, consumer = desc
             fitems, _ = full(name, consumer)
+            if consumer in ('formatted_kevents', 'formatted_traces'):
+                for c in range(-1, len(fitems) + 2):
+                    for sig, detail in judge_cli_limit(name, consumer, c):
+                        acc.violation(sig, {'kind': 'cli-limit', 'dump': name, 'consumer': consumer, 'limit': c}, detail)
+                    acc.case(nontrivial=0 <= c <= len(fitems), transitions=max(c, 0) + 1, outcome=h64((name, consumer, 'cli', c)))
             for c in range(len(fitems) + 2):
                 bad = judge_limit(name, consumer, c)
                 acc.case(nontrivial=0 < c <= len(fitems), transitions=c + 1, outcome=h64((name, consumer, 'limit', c)))
@@ -289,6 +317,8 @@ class C06(Check):
     def replay(self, case):
         if case['kind'] == 'cut':
             return judge_cut(case['dump'], case['consumer'], case['cut'])[0]
+        if case['kind'] == 'cli-limit':
+            return judge_cli_limit(case['dump'], case['consumer'], case['limit'])
         return judge_limit(case['dump'], case['consumer'], case['limit'])
 
 
